@@ -31,11 +31,45 @@ for f in files:
             continue
         if 2 <= v <= (1 << 64) - 1:
             ints.add(v)
+    def unescape(t):
+        # Rust escapes -> text (\n \t \r \0 \\ \" \' \xNN \u{N..}); None when something else is escaped
+        out, i = [], 0
+        while i < len(t):
+            c = t[i]
+            if c != "\\":
+                out.append(c); i += 1; continue
+            if i + 1 >= len(t):
+                return None
+            e = t[i + 1]
+            simple = {"n": "\n", "t": "\t", "r": "\r", "0": "\0", "\\": "\\", '"': '"', "'": "'"}
+            if e in simple:
+                out.append(simple[e]); i += 2
+            elif e == "x" and re.match(r"[0-9a-fA-F]{2}", t[i + 2:i + 4] or ""):
+                out.append(chr(int(t[i + 2:i + 4], 16))); i += 4
+            elif e == "u":
+                mm = re.match(r"\{([0-9a-fA-F_]{1,6})\}", t[i + 2:])
+                if not mm:
+                    return None
+                out.append(chr(int(mm.group(1).replace("_", ""), 16))); i += 2 + mm.end()
+            else:
+                return None
+        return "".join(out)
+
     for m in re.finditer(r'"((?:[^"\\\n]|\\.){1,24})"', text):
         s = m.group(1)
-        if "{" in s or "\\" in s:
+        if "\\" in s:
+            u = unescape(s)
+            if u is not None and "{" not in u.replace("\x1b", "") and 0 < len(u) <= 24:
+                strs.add(u)
+            continue
+        if "{" in s:
             continue
         strs.add(s)
+    # escaped character literals ('\u{1b}', '\n', '\x7f', ...)
+    for m in re.finditer(r"(?<![A-Za-z0-9_&<])'(\\(?:[ntr0\\'\"]|x[0-9a-fA-F]{2}|u\{[0-9a-fA-F_]{1,6}\}))'", text):
+        u = unescape(m.group(1))
+        if u:
+            strs.add(u)
     # character literals ('$', '-', ...): conditions such as starts_with('$') put them into the source text
     for m in re.finditer(r"(?<![A-Za-z0-9_&<])'([^'\\\n])'", text):
         strs.add(m.group(1))
